@@ -446,6 +446,18 @@ func cacheKeyOf(pkg *pkgFiles, m method, consts map[string]string, fields map[st
 		})
 		return out
 	}
+	depsOf := func(e ast.Node, self string) []string {
+		out := qSelectors(e)
+		ast.Inspect(e, func(x ast.Node) bool { // a value built from other locals inherits their dependencies
+			if o, ok := x.(*ast.Ident); ok && o.Name != self {
+				for d := range localDeps[o.Name] {
+					out = append(out, d)
+				}
+			}
+			return true
+		})
+		return out
+	}
 	var defLocal func(st ast.Stmt, extra []string)
 	defLocal = func(st ast.Stmt, extra []string) {
 		switch v := st.(type) {
@@ -460,22 +472,32 @@ func cacheKeyOf(pkg *pkgFiles, m method, consts map[string]string, fields map[st
 			if localDeps[id.Name] == nil {
 				localDeps[id.Name] = map[string]bool{}
 			}
-			for _, d := range append(qSelectors(v.Rhs[0]), extra...) {
+			for _, d := range append(depsOf(v.Rhs[0], id.Name), extra...) {
 				localDeps[id.Name][d] = true
 			}
-			ast.Inspect(v.Rhs[0], func(x ast.Node) bool { // a local built from other locals inherits their dependencies
-				if o, ok := x.(*ast.Ident); ok && o.Name != id.Name {
-					for d := range localDeps[o.Name] {
-						localDeps[id.Name][d] = true
+		case *ast.DeclStmt: // var x T
+			gd, ok := v.Decl.(*ast.GenDecl)
+			if !ok || gd.Tok != token.VAR {
+				fatal("%s.CacheKey: unrecognised declaration at %s", m.qtype, pos(v))
+			}
+			for _, sp := range gd.Specs {
+				vs := sp.(*ast.ValueSpec)
+				for i, n := range vs.Names {
+					if localDeps[n.Name] == nil {
+						localDeps[n.Name] = map[string]bool{}
+					}
+					if i < len(vs.Values) {
+						for _, d := range depsOf(vs.Values[i], n.Name) {
+							localDeps[n.Name][d] = true
+						}
 					}
 				}
-				return true
-			})
+			}
 		case *ast.IfStmt:
 			if v.Init != nil || v.Else != nil {
 				fatal("%s.CacheKey: unrecognised if statement at %s", m.qtype, pos(v))
 			}
-			cond := qSelectors(v.Cond)
+			cond := depsOf(v.Cond, "")
 			for _, b := range v.Body.List {
 				defLocal(b, cond)
 			}
@@ -530,6 +552,20 @@ func cacheKeyOf(pkg *pkgFiles, m method, consts map[string]string, fields map[st
 		default:
 			// <local>.Format(time.RFC3339[Nano]) where the local is computed from the slice end (and start / step): the end
 			// component of the slice - an opaque, slice-dependent value
+			if ce, ok := a.(*ast.CallExpr); ok && src(ce.Fun) == "strconv.FormatInt" && len(ce.Args) == 2 {
+				// the decimal rendering of an integer local computed from the slice end (and start / step), e.g. the number of grid points
+				if id, ok := ce.Args[0].(*ast.Ident); ok && localDeps[id.Name]["q.r.End"] {
+					field("r.End")
+					if localDeps[id.Name]["q.r.Start"] {
+						field("r.Start")
+					}
+					if localDeps[id.Name]["q.r.Step"] {
+						field("r.Step")
+					}
+					out = append(out, comp{false, "slice_end"})
+					continue
+				}
+			}
 			if ce, ok := a.(*ast.CallExpr); ok && len(ce.Args) == 1 && strings.HasPrefix(src(ce.Args[0]), "time.RFC3339") {
 				if se, ok := ce.Fun.(*ast.SelectorExpr); ok && se.Sel.Name == "Format" {
 					if id, ok := se.X.(*ast.Ident); ok && localDeps[id.Name]["q.r.End"] {
